@@ -11,6 +11,11 @@ pub fn s_set(pk: u8, slot: u8, val: u8) -> TxSpec {
     TxSpec::Call { pk, tgt: Tgt::s(), data: asm::s_set(slot, val, 1, [val, 0, 0, 0]), len: DEFAULT_LEN }
 }
 
+/// S.setwide: a full-width storage key and value (0 clears the slot)
+pub fn s_setwide(pk: u8, val: u8) -> TxSpec {
+    TxSpec::Call { pk, tgt: Tgt::s(), data: asm::s_setwide(val), len: DEFAULT_LEN }
+}
+
 pub fn s_call(pk: u8, data: Vec<u8>) -> TxSpec {
     TxSpec::Call { pk, tgt: Tgt::s(), data, len: DEFAULT_LEN }
 }
